@@ -673,6 +673,16 @@ static int op_cfg(int argc, char **argv, FILE *out) {
     fputs("ok", out);
     /* how the configuration's LogMAC / FTicksMAC / FTicksReporting were understood */
     fprintf(out, " macopts:%d,%d,%d", options.log_mac, options.fticks_mac, options.fticks_reporting);
+    /* what each block was taken to say, defaults resolved: type, secret length, duplicate interval / retries, TTL, flags */
+    for (e = list_first(clconfs); e; e = list_next(e)) {
+        struct clsrvconf *c = e->data;
+        fprintf(out, " cd:%s:%d,%d,%d,%d,%d,%d", c->name, c->type, c->secret_len, c->dupinterval, c->addttl, c->reqmsgauth, c->reqmsgauthproxy);
+    }
+    for (e = list_first(srvconfs); e; e = list_next(e)) {
+        struct clsrvconf *c = e->data;
+        fprintf(out, " sd:%s:%d,%d,%d,%d,%d,%d,%d,%d", c->name, c->type, c->secret_len, c->retrycount, c->retryinterval, c->statusserver, c->addttl,
+                c->loopprevention, c->reqmsgauth);
+    }
     for (e = list_first(clconfs); e; e = list_next(e)) {
         struct clsrvconf *c = e->data;
         if (c->type == RAD_TLS || c->type == RAD_DTLS)
